@@ -444,7 +444,7 @@ func (w *FWorld) newToken(t *rapid.T) *structs.ACLToken {
 	sec, _ := w.mint("e0a")
 	tok := &structs.ACLToken{AccessorID: acc, SecretID: sec, Description: pick(t, "tokdesc", []string{"", "t1", "t2"}), Local: chance(t, "toklocal", 30),
 		CreateTime: w.tick(t), EnterpriseMeta: defaultEM}
-	if chance(t, "tokexp", 30) {
+	if chance(t, "tokexp", 55) {
 		exp := tok.CreateTime.Add(time.Duration(rapid.IntRange(1, 24).Draw(t, "tokttl")) * time.Hour)
 		tok.ExpirationTime = &exp
 	}
